@@ -42,6 +42,9 @@ pub enum Ev {
     /// a CDATA section `<![CDATA[…]]>` holding this character data (must not contain `]]>`); quick-xml reports it
     /// as `Event::CData` (C16: defined-name text)
     CData(String),
+    /// the same character data as `Text`, but every character is written as a numeric character reference
+    /// (`&#49;` / `&#x31;` alternately): quick-xml's `unescape` gives the characters back (C01, seeded C01-m17)
+    TextRef(String),
 }
 
 pub fn start(name: &str, attrs: &[(&str, &str)]) -> Ev {
@@ -92,7 +95,12 @@ pub fn esc_attr(s: &str) -> String {
 
 /// Events → text. `self_close`: for every `Start` immediately followed by its `End`, decides whether the
 /// pair is written `<a/>` (true) or `<a></a>` (false); quick-xml (expand_empty_elements) reports both alike.
-pub fn serialize(evs: &[Ev], mut self_close: impl FnMut() -> bool) -> String {
+pub fn serialize(evs: &[Ev], self_close: impl FnMut() -> bool) -> String {
+    serialize_with(evs, self_close, || false)
+}
+
+/// `serialize` with one more choice: `end_space()` decides, end tag by end tag, whether it is written `</a >`
+pub fn serialize_with(evs: &[Ev], mut self_close: impl FnMut() -> bool, mut end_space: impl FnMut() -> bool) -> String {
     let mut o = String::new();
     let mut i = 0;
     while i < evs.len() {
@@ -116,9 +124,22 @@ pub fn serialize(evs: &[Ev], mut self_close: impl FnMut() -> bool) -> String {
                 }
             }
             Ev::Text(t) => o.push_str(&esc_text(t)),
+            Ev::TextRef(t) => {
+                for (k, ch) in t.chars().enumerate() {
+                    if k % 2 == 0 {
+                        o.push_str(&format!("&#{};", ch as u32));
+                    } else {
+                        o.push_str(&format!("&#x{:X};", ch as u32));
+                    }
+                }
+            }
             Ev::End(n) => {
                 o.push_str("</");
                 o.push_str(n);
+                // white space is allowed between the name and `>` of an end tag (XML 1.0 production [42] ETag)
+                if end_space() {
+                    o.push_str(" ");
+                }
                 o.push('>');
             }
             Ev::Other(raw) => o.push_str(raw),
@@ -147,7 +168,7 @@ pub fn ev_wire(evs: &[Ev]) -> String {
                 format!("s:{}:{}", nm(n), if a.is_empty() { "-".to_string() } else { a.join(",") })
             }
             Ev::End(n) => format!("e:{}", nm(n)),
-            Ev::Text(t) => format!("t:{}", crate::hex(t.as_bytes())),
+            Ev::Text(t) | Ev::TextRef(t) => format!("t:{}", crate::hex(t.as_bytes())),
             Ev::Other(_) => "o".to_string(),
             Ev::CData(t) => format!("c:{}", crate::hex(t.as_bytes())),
         });
@@ -526,6 +547,13 @@ pub struct Layout {
     /// spans, the last column of the grid. The position of a cell without `r` is "previous + 1" / column A whatever
     /// the hint says. Private stream, `plain()` = 0. (C01, seeded C01-m11)
     pub pct_spans: u8,
+    /// chance, cell by cell, that the text of a `<v>` (shared-string index, boolean, error literal, ISO date, formula
+    /// string, number) is written as numeric character references (`<v>&#49;&#x32;</v>` for `12`). Drawn from the
+    /// attribute stream; `plain()` = 0. (C01, seeded C01-m17)
+    pub pct_char_ref: u8,
+    /// chance, end tag by end tag and in every generated part, of white space before the `>` (`</row >`, `</c >`):
+    /// legal XML, the same event. Private stream, `plain()` = 0. (C01, seeded C01-m18)
+    pub pct_end_tag_space: u8,
 }
 
 impl Layout {
@@ -566,6 +594,8 @@ impl Layout {
             shuffle_rows: false,
             pct_rels_noise: 0,
             pct_spans: 0,
+            pct_char_ref: 0,
+            pct_end_tag_space: 0,
         }
     }
     /// every knob randomised (legal variations only)
@@ -577,6 +607,8 @@ impl Layout {
             l.dimension = DimMode::FirstLast;
         }
         l.pct_spans = *own2.pick(&[0u8, 0, 50, 100]);
+        l.pct_char_ref = *own2.pick(&[0u8, 0, 30, 100]);
+        l.pct_end_tag_space = *own2.pick(&[0u8, 0, 30, 100]);
         l
     }
     fn random_base(rng: &mut Rng) -> Layout {
@@ -617,6 +649,8 @@ impl Layout {
             shuffle_rows: false,
             pct_rels_noise: *own.pick(&[0u8, 0, 50, 100]),
             pct_spans: 0,
+            pct_char_ref: 0,
+            pct_end_tag_space: 0,
             // (drawn last from `own`: the knobs above keep the values they had before this one existed)
             pct_xf_apply_flag: *own.pick(&[0u8, 0, 50, 100]),
             pct_v_split: *own.pick(&[0u8, 0, 30, 100]),
@@ -626,13 +660,13 @@ impl Layout {
     /// short description for counters / failure signatures
     pub fn describe(&self) -> String {
         format!(
-            "pre={} rel={} case={:?} target={:?} zip={:?} dim={:?} rowref={} cellref={} lower={} swap={} dedupe={} rich={} emptysi={} tn={} selfclose={} ws={} noise={} blank={} attrshuffle={} attrextra={} tnstyled={} xfomit={} stylesnoise={} rowstyle={} reldecl={:?} relsnoise={} applyflag={} spans={}",
+            "pre={} rel={} case={:?} target={:?} zip={:?} dim={:?} rowref={} cellref={} lower={} swap={} dedupe={} rich={} emptysi={} tn={} selfclose={} ws={} noise={} blank={} attrshuffle={} attrextra={} tnstyled={} xfomit={} stylesnoise={} rowstyle={} reldecl={:?} relsnoise={} applyflag={} spans={} charref={} endspace={}",
             if self.prefix.is_empty() { "-" } else { &self.prefix },
             self.rel_prefix, self.part_case, self.target, self.compression, self.dimension, self.pct_row_ref,
             self.pct_cell_ref, self.pct_lower_ref, self.pct_swap_string_store, self.pct_sst_dedupe, self.pct_rich,
             self.pct_empty_si, self.pct_t_n, self.pct_self_close, self.pct_whitespace, self.pct_noise, self.pct_write_blank,
             self.pct_attr_shuffle, self.pct_attr_extra, self.pct_t_n_styled, self.pct_xf_omit_general, self.pct_styles_noise,
-            self.pct_row_style, self.rel_decl, self.pct_rels_noise, self.pct_xf_apply_flag, self.pct_spans
+            self.pct_row_style, self.rel_decl, self.pct_rels_noise, self.pct_xf_apply_flag, self.pct_spans, self.pct_char_ref, self.pct_end_tag_space
         )
     }
     fn q(&self, n: &str) -> String {
@@ -1000,7 +1034,11 @@ fn render_cell(cell: &XCell, l: &Layout, rng: &mut Rng, arng: &mut Rng, vrng: &m
             Some(vrng) if !val.is_empty() => v_content(val, vrng, out),
             _ => {
                 if !val.is_empty() {
-                    out.push(text(val));
+                    if roll(arng, l.pct_char_ref) {
+                        out.push(Ev::TextRef(val.to_string()));
+                    } else {
+                        out.push(text(val));
+                    }
                 }
             }
         }
@@ -1283,7 +1321,10 @@ impl XlsxBook {
         let sc = |rng: &mut Rng, evs: &[Ev]| -> Vec<u8> {
             let mut r2 = rng.fork();
             let pct = l.pct_self_close;
-            let body = serialize(evs, || roll(&mut r2, pct));
+            // end-tag white space: a stream of its own (seeded from the part's size, not from `rng`)
+            let mut r3 = Rng(l.seed ^ 0xE7D5_9ACE ^ evs.len() as u64);
+            let pes = l.pct_end_tag_space;
+            let body = serialize_with(evs, || roll(&mut r2, pct), || roll(&mut r3, pes));
             format!("<?xml version=\"1.0\" encoding=\"UTF-8\" standalone=\"yes\"?>\n{}", body).into_bytes()
         };
         // content types (calamine does not read it; Excel does)
